@@ -1,9 +1,80 @@
 (* Property C15: import resolves by skeleton, evaluates once in an empty scope, context-free
    ONLY statements: each theorem is closed by `exact` of a lemma proved elsewhere and followed by Print Assumptions. *)
-From Coq Require Import ZArith NArith List Bool Lia Permutation.
+From Coq Require Import ZArith NArith List Bool Lia Permutation FMapPositive.
 Import ListNotations.
-Require Import ImpSearch ImportProofs ImpLoad.
+Require Import Base Strings Builtins Interp Machine Spec Refine2 RunG ImpSearch ModFS ImportMain ImportProofs ImpLoad.
 Open Scope Z_scope.
+(* INSIDE THE MAIN MODEL (the evaluator's own ㅂ): the literal route asks the world to search, and that search is ImpSearch.search on the tree the disk denotes - so the six search theorems below speak about the evaluator *)
+Theorem find_is_search w sp lits :
+  wstep w (WFind sp lits) =
+  (w, match search lits (tree_of_disk (w_disk w)) with
+      | Found _ id => match nth_error (w_disk w) (N.to_nat id) with Some (nm, _) => inl (VStr (46 :: 47 :: nm)%N) | None => inr (mkerr c_notfound sp) end
+      | NotFound => inr (mkerr c_notfound sp)
+      | Ambiguous => inr (mkerr c_import sp) end).
+Proof. exact (ImportMain.find_is_search w sp lits). Qed.
+Print Assumptions find_is_search.
+
+(* first import of a file holding one expression: ONE new delayed expression is registered under the FILE and handed back unevaluated; input, output, files and handles unchanged *)
+Theorem load_fresh (rec : list positive -> heap -> world -> task -> out) sp path ip h w id bytes text a :
+  index_of (w_disk w) (strip_dot path) 0 = Some (id, bytes) -> mod_get (w_mods w) id = None ->
+  text_of bytes = Some text -> Lex.parse_text text = inl [a] ->
+  runG rec value ip h w (load_from_path sp path) = DoneG (fst (alloc h a empty_env)) (register w id (next_t h)) (inl (VThunk (next_t h))) 0.
+Proof. exact (ImportMain.load_fresh rec sp path ip h w id bytes text a). Qed.
+Print Assumptions load_fresh.
+
+(* what was allocated is the file's own expression in the EMPTY environment: nothing of the importing expression's surroundings is in it (context-free), and like every delayed expression it is evaluated at most once (C13: evaluated_at_most_once) *)
+Theorem module_is_the_files_expression h a :
+  get (fst (alloc h a empty_env)) (next_t h) = Some (module_cell a).
+Proof. exact (ImportMain.module_is_the_files_expression h a). Qed.
+Print Assumptions module_is_the_files_expression.
+
+(* a later import of the same file by ANY spelling of its path: the registered object; nothing read, parsed or allocated *)
+Theorem load_registered (rec : list positive -> heap -> world -> task -> out) sp path ip h w id bytes t :
+  index_of (w_disk w) (strip_dot path) 0 = Some (id, bytes) -> mod_get (w_mods w) id = Some t ->
+  runG rec value ip h w (load_from_path sp path) = DoneG h w (inl (VThunk t)) 0.
+Proof. exact (ImportMain.load_registered rec sp path ip h w id bytes t). Qed.
+Print Assumptions load_registered.
+
+(* both together: after the first import, an import by a path naming the same file - from any heap - yields that very object *)
+Theorem module_loaded_once (rec : list positive -> heap -> world -> task -> out) sp1 sp2 p1 p2 ip1 ip2 h h2 w id bytes text a :
+  index_of (w_disk w) (strip_dot p1) 0 = Some (id, bytes) -> mod_get (w_mods w) id = None -> text_of bytes = Some text -> Lex.parse_text text = inl [a] ->
+  strip_dot p2 = strip_dot p1 ->
+  exists w1 t, runG rec value ip1 h w (load_from_path sp1 p1) = DoneG (fst (alloc h a empty_env)) w1 (inl (VThunk t)) 0 /\
+               runG rec value ip2 h2 w1 (load_from_path sp2 p2) = DoneG h2 w1 (inl (VThunk t)) 0.
+Proof. exact (ImportMain.module_loaded_once rec sp1 sp2 p1 p2 ip1 ip2 h h2 w id bytes text a). Qed.
+Print Assumptions module_loaded_once.
+
+Theorem load_empty_module (rec : list positive -> heap -> world -> task -> out) sp path ip h w id bytes text :
+  index_of (w_disk w) (strip_dot path) 0 = Some (id, bytes) -> mod_get (w_mods w) id = None -> text_of bytes = Some text -> Lex.parse_text text = inl [] ->
+  runG rec value ip h w (load_from_path sp path) = DoneG h w (inr (mkerr c_value sp)) 0.
+Proof. exact (ImportMain.load_empty_module rec sp path ip h w id bytes text). Qed.
+Print Assumptions load_empty_module.
+
+Theorem load_several_expressions (rec : list positive -> heap -> world -> task -> out) sp path ip h w id bytes text a b r :
+  index_of (w_disk w) (strip_dot path) 0 = Some (id, bytes) -> mod_get (w_mods w) id = None -> text_of bytes = Some text -> Lex.parse_text text = inl (a :: b :: r) ->
+  runG rec value ip h w (load_from_path sp path) = DoneG h w (inr (mkerr c_value (ast_span a))) 0.
+Proof. exact (ImportMain.load_several_expressions rec sp path ip h w id bytes text a b r). Qed.
+Print Assumptions load_several_expressions.
+
+Theorem load_syntax_error (rec : list positive -> heap -> world -> task -> out) sp path ip h w id bytes text pe psp :
+  index_of (w_disk w) (strip_dot path) 0 = Some (id, bytes) -> mod_get (w_mods w) id = None -> text_of bytes = Some text -> Lex.parse_text text = inr (pe, psp) ->
+  runG rec value ip h w (load_from_path sp path) = DoneG h w (inr (mkerr c_syntax psp)) 0.
+Proof. exact (ImportMain.load_syntax_error rec sp path ip h w id bytes text pe psp). Qed.
+Print Assumptions load_syntax_error.
+
+Theorem load_not_utf8 (rec : list positive -> heap -> world -> task -> out) sp path ip h w id bytes :
+  index_of (w_disk w) (strip_dot path) 0 = Some (id, bytes) -> mod_get (w_mods w) id = None -> text_of bytes = None ->
+  runG rec value ip h w (load_from_path sp path) = DoneG h w (inr (mkerr c_import sp)) 0.
+Proof. exact (ImportMain.load_not_utf8 rec sp path ip h w id bytes). Qed.
+Print Assumptions load_not_utf8.
+
+(* bad modules: a language-level error and NOTHING changes, the registry included *)
+Theorem load_no_such_file (rec : list positive -> heap -> world -> task -> out) sp path ip h w :
+  index_of (w_disk w) (strip_dot path) 0 = None ->
+  runG rec value ip h w (load_from_path sp path) = DoneG h w (inr (os_error sp (open_errno (w_disk w) (strip_dot path)))) 0.
+Proof. exact (ImportMain.load_no_such_file rec sp path ip h w). Qed.
+Print Assumptions load_no_such_file.
+
 Theorem search_is_classify  :
   forall lits t, search lits t = classify (all_paths lits t).
 Proof. exact (ImportProofs.search_is_classify ). Qed.
